@@ -1,4 +1,5 @@
 import Cvise.Drv.Binary
+import Cvise.Drv.Matcher
 open Cvise.Drv
 
 def dispatch (line : String) : String :=
@@ -6,6 +7,8 @@ def dispatch (line : String) : String :=
   | "bin" :: args => handleBin args
   | "binrun" :: args => handleBinRun args
   | "binrunt" :: args => handleBinRunT args
+  | "msearch" :: args => handleMSearch args
+  | "rx" :: args => handleRx args
   | _ => "bad-op"
 
 partial def loop (h : IO.FS.Stream) (out : IO.FS.Stream) : IO Unit := do
